@@ -242,6 +242,11 @@ theorem core_readyStable (N : Nat) (c a : α) :
   ⟨Ready.gte c, Ready.lte c, Ready.drawdown, Ready.welfordRolling, Ready.ema N a, Ready.sma N, Ready.cum N, Ready.min N,
     Ready.max N, Ready.roc N, Ready.hln N, Ready.cti N, Ready.cog N, Ready.entropy N, Ready.superSmoother N⟩
 
+/-- … and TrendFlex, ReFlex (which HOLDS its previous output while its mean square is 0) and NET, from any state -/
+theorem flex_net_readyStable (N : Nat) :
+    (tflexCore (α := α) N).ReadyStable ∧ (rflexCore (α := α) N).ReadyStable ∧ (netCore (α := α) N).ReadyStable :=
+  ⟨Ready.trendFlex N, Ready.reFlex N, Ready.net N⟩
+
 /-- **a chain's readiness never reverts if its outermost core's does not** — whatever the inner view does -/
 theorem chain_readyStable (A : View α) (B : Core α) (hB : B.ReadyStable) : (wrap A B).ReadyStable :=
   Ready.wrap_readyStable A B hB
